@@ -24,6 +24,7 @@ RULE = ('every string of length <= 3 (4 in thorough) over {a, separator, double 
         'a row containing separator, quote and escape. Each case: real dump -> real load with the matching schema, compared field by '
         'field (copysign for the sign of zero). Non-trivial = distinct row whose string contains a special character or whose number '
         'is negative/fractional.')
+DEEP_PROBES = ('400 rows in one stream; strings that look like numbers / booleans; a field with 5 000 separators; a 140 000 character row; non-ASCII characters slid across the 64 KiB read boundary')
 ASSUMPTIONS = ['strings contain no newline (stated); floats are those printable by str()', 'values outside the alphabets are not covered']
 LEVEL_TEXT = ('Exhaustive small-scope exploration of the input/configuration grid of the real dump/load pair; the parser has no '
               'state across rows, so the space is a grid of rows and configurations rather than histories.')
